@@ -6,7 +6,8 @@ Driver glue for C09: S-expression -> `Ctx` / `TExpr` / `Stmts` -> `check` / `che
 -> canonical result.  Case grammar (shared with harness/src/props/c09.rs):
 
   case  ::= (prog CTX (STMT*)) | (expr CTX EXPR)
-  CTX   ::= (ctx (regs (ID VT)*) (vars (ID VT)*) (sigs (OPCODE (VT r|o)*)*))     VT ::= i | f | s | u
+  CTX   ::= (ctx (regs (ID VT)*) (vars (ID VT [c])*) (sigs (OPCODE (VT r|o)*)*))  VT ::= i | f | s | u
+            (`c` marks a `const` variable)
   EXPR  ::= (i N) | (f BITS) | (s "..") | (reg ID SIG) | (var ID SIG) | (un OP E) | (bin OP A B)
           | (tern C L R) | (call OPCODE E*)                                       SIG ::= i | f | n
   STMT  ::= (estmt E) | (assign REF AOP E) | (decl ID) | (decl ID E) | (const ID E)
@@ -42,9 +43,14 @@ def toCtx (c : Sexp) : Ctx :=
   let vars := pairs a[1]!
   let sigs : List (Nat × List Param) := (a[2]!).args.map fun s =>
     ((s.items[0]!).asNat, (s.items.drop 1).map paramOf)
+  let consts : List Nat := (a[1]!).args.filterMap fun p =>
+    match p.items[2]? with
+    | some m => if m.asAtom == "c" then some (p.items[0]!).asNat else none
+    | none => none
   { regTy := lookupTy regs
     varTy := lookupTy vars
-    sig := fun f => (sigs.find? (·.1 == f)).map (·.2) }
+    sig := fun f => (sigs.find? (·.1 == f)).map (·.2)
+    isConst := fun n => consts.contains n }
 
 mutual
 partial def toExpr (s : Sexp) : TExpr :=
